@@ -366,7 +366,11 @@ class C11(Prop):
                 return f"ast.parse accepts the output but the reference grammar rejects it: {obs['out']!r}"
             if r2["ok"] != a:
                 return f"reference grammar parsed {r2['ok']!r}, ast.parse {a!r}"
-        # hypothesis flags of the theorems
+        # hypothesis flags of the theorems: they must hold on the whole generated domain (else the theorems say nothing there)
+        if not r.get("valid"):
+            return "hypothesis validStmt of C11_roundtrip is false for a generated input whose names are valid Python identifiers"
+        if not r.get("wf"):
+            return "hypothesis wfName / split round trip of C11_imports_exact is false for a generated input"
         if r.get("valid") and r.get("noBadParen") and isinstance(a, str):
             return "hypotheses ValidSet and NoBadParen hold but the output is not valid Python (theorem C11_roundtrip_partial contradicted)"
         return None
